@@ -44,6 +44,12 @@ def corruptions():
         ("log_encode", 40, [
             (lambda e: ok(e) and e["out"]["enc"]["terms"], lambda e: e["out"]["enc"]["terms"][-1].__setitem__("c", _bump(e["out"]["enc"]["terms"][-1]["c"])), "last coefficient + 1 (overshoot)"),
         ]),
+        ("store", 30, [
+            (lambda e: ok(e) and e["in"]["op"] == "build_archive" and e["in"]["layers"],
+             lambda e: [f["read"]["content"].pop() for f in e["out"]["post"]["files"] if f["path"] == e["in"]["path"]], "a layer lost from the archive just built"),
+            (lambda e: ok(e) and e["in"]["op"] == "load" and e["in"]["pre"]["images"] and e["out"]["post"]["images"][0]["read"].get("content"),
+             lambda e: e["out"]["post"]["images"][0]["read"]["content"].reverse() if len(e["out"]["post"]["images"][0]["read"]["content"]) > 1 else e["out"]["post"]["images"][0]["read"]["content"].append(["solution", 99]), "another registry entry changed by a load"),
+        ]),
         ("mps_roundtrip", 30, [
             (lambda e: ok(e) and e["out"]["inst"]["vars"], lambda e: e["out"]["inst"]["vars"][0].__setitem__("bound", [{"lo": [0, 1], "hi": [1, 0]}]), "a bound replaced by the MPS default"),
         ]),
